@@ -38,6 +38,10 @@ fn rebuild<S: HB>(cfg: &HistCfg, ops: &[Op], base: usize) -> Vec<Cache<S>> {
     let mut cur = 0usize;
     let mut held = Held::default();
     for op in ops { let _ = apply(&mut caches, &mut cur, op, &mut held, base); held.clear(); }
+    // a small, independently constructed donor cache (#1) so that operations between two caches can be injected into
+    let mut donor: Cache<S> = S::make(cfg.max / 2 + base * 3, Some(ops.len() % 5), cfg.hk);
+    for id in 0..(ops.len() % 4) as u32 + 1 { let _ = donor.insert(TKey::new(id + 1, 0), TVal::new(id as usize)); }
+    caches.push(donor);
     caches
 }
 
@@ -94,7 +98,7 @@ fn target_ops(rng: &mut Rng, pre: &Obs, cfg: &HistCfg, base: usize) -> Vec<Op> {
     ops.push(Op::TryReserve { n: pre.cap.saturating_sub(pre.len) + 1 + rng.usize_below(30) });
     ops.push(Op::ShrinkFit); ops.push(Op::ShrinkTo { n: pre.len + rng.usize_below(2) });
     // the rest
-    ops.push(Op::CloneCache); ops.push(Op::Clear);
+    ops.push(Op::CloneCache); ops.push(Op::CloneFrom { src: 1 }); ops.push(Op::Clear);
     ops.push(Op::Iterate { kind: IT_DRAIN, calls: vec![false, true], forget: false });
     ops.push(Op::Iterate { kind: IT_ITER, calls: vec![false; pre.len + 1], forget: false });
     ops
@@ -176,6 +180,7 @@ fn post_panic_checks(tag: &str, obs: &Obs, pre: Option<&Obs>, class: usize, op: 
 #[allow(clippy::too_many_arguments)]
 pub fn inject_case<S: HB>(cfg: &HistCfg, build: &[Op], op: &Op, class: usize, n: u64, universe: u32, base: usize, rng: &mut Rng, p: &InjectParams, out: &mut RunOut, fixed_further: Option<&[Op]>) -> bool {
     ledger_reset(); ledger_strict(true);
+    crate::ops::set_current_hk(cfg.hk);
     let mut caches = rebuild::<S>(cfg, build, base);
     let mut cur = 0usize; let mut held = Held::default();
     let pre = observe(&caches[0], &obs_full(universe, 64));
